@@ -143,6 +143,20 @@ func (c *compiler) write(bb *strings.Builder, i interface{}) {
 	}
 }
 
+// printedNow fixes what an output tag inside a block prints at the moment the
+// tag is evaluated: the block's values are written when the block ends, and a
+// list emitted by the tag may have been modified by a later statement by then.
+func printedNow(v interface{}) interface{} {
+	switch t := v.(type) {
+	case []interface{}:
+		return append([]interface{}(nil), t...)
+	case []string:
+		return append([]string(nil), t...)
+	}
+
+	return v
+}
+
 // printed calls a value's own printing method (String, HTML, Interface). A value
 // whose method cannot run - it is promoted through a nil embedded pointer, say -
 // prints nothing, like the typed nil pointer it wraps.
@@ -1301,7 +1315,7 @@ func (c *compiler) evalBlockStatements(node *ast.BlockStatement) (interface{}, e
 		val, exitBlock := i.(exitBlockStatment)
 		if !exitBlock {
 			if i != nil {
-				res = append(res, i)
+				res = append(res, printedNow(i))
 			}
 		} else {
 			var resValue interface{}
